@@ -1,37 +1,48 @@
 package check
 
 func init() {
-	lcp := func(names ...string) []string {
+	of := func(typ string, names ...string) []string {
 		var out []string
 		for _, n := range names {
-			out = append(out, "pppoe.LCPStateMachine."+n)
+			out = append(out, "pppoe."+typ+"."+n)
 		}
 		return out
 	}
+	// functions every one of the three automata has
+	common := []string{"Up", "Down", "Open", "Close", "closeInternal", "ReceivePacket", "receiveConfigureRequest", "receiveConfigureAck",
+		"receiveConfigureNak", "receiveConfigureReject", "receiveTerminateRequest", "receiveTerminateAck", "sendConfigureRequest",
+		"sendTerminateRequest", "sendTerminateAck", "timeout", "initializeRestartCount", "zeroRestartCount", "startTimer", "stopTimer",
+		"setState", "processConfigureOptions", "IsOpened", "GetState", "GetNegotiatedOptions", "SetOnStateChange"}
+	var funcs []string
+	funcs = append(funcs, of("LCPStateMachine", common...)...)
+	funcs = append(funcs, of("LCPStateMachine", "receiveCodeReject", "receiveProtocolReject", "receiveEchoRequest", "receiveEchoReply",
+		"sendCodeReject", "SendEchoRequest", "SendProtocolReject", "storePeerOptions")...)
+	funcs = append(funcs, of("IPCPStateMachine", common...)...)
+	funcs = append(funcs, of("IPCPStateMachine", "SetPeerIP")...)
+	funcs = append(funcs, of("IPV6CPStateMachine", common...)...)
+	funcs = append(funcs, "pppoe.LCPPacket.Serialize", "pppoe.ParseLCPPacket", "pppoe.ParseLCPOptions", "pppoe.SerializeLCPOptions")
 	register(&PropDef{
 		ID:    "C11",
 		Title: "PPP control protocols open only on mutual agreement and always terminate",
 		Pkgs:  []string{"./pkg/pppoe"},
-		Funcs: append(lcp("Up", "Down", "Open", "Close", "closeInternal", "ReceivePacket", "receiveConfigureRequest", "receiveConfigureAck",
-			"receiveConfigureNak", "receiveConfigureReject", "receiveTerminateRequest", "receiveTerminateAck", "receiveCodeReject",
-			"receiveProtocolReject", "receiveEchoRequest", "receiveEchoReply", "sendConfigureRequest", "sendTerminateRequest", "sendTerminateAck",
-			"sendCodeReject", "SendEchoRequest", "SendProtocolReject", "timeout", "initializeRestartCount", "zeroRestartCount", "startTimer", "stopTimer",
-			"setState", "processConfigureOptions", "storePeerOptions", "IsOpened", "GetState", "GetNegotiatedOptions", "SetOnStateChange"),
-			"pppoe.LCPPacket.Serialize", "pppoe.ParseLCPPacket", "pppoe.ParseLCPOptions", "pppoe.SerializeLCPOptions"),
+		Funcs: funcs,
 		Trusted: []string{
-			"functype LCPStateMachine.sendPacket / onStateChange: the callbacks modify no automaton state (assumed); sendPacket's contract records the first packet (code, identifier) sent by the current activation in ghost variables",
-			"generateMagicNumber: trusted frame (crypto/rand)",
+			"functype {LCP,IPCP,IPV6CP}StateMachine.sendPacket / onStateChange: the callbacks modify no automaton state (assumed); sendPacket's contract records the first packet (code, identifier) sent by the current activation in ghost variables",
+			"iface IPPoolAllocator.Allocate / Release: modify no automaton state (assumed)",
+			"generateMagicNumber, generateInterfaceID: trusted frame (crypto/rand)",
+			"time.AfterFunc returns a non-nil *time.Timer and has no effect on the caller's state at the call (library model)",
 		},
 		Undecided: []string{
-			"IPCP and IPv6CP automata (ipcp.go, ipv6cp.go) are not under contract in this run: the LCP automaton is; 'IPCP acknowledges only the address assigned to the session' is therefore undecided",
-			"'an acknowledgement repeats the request's options unchanged while a nak or reject lists only offending options': processConfigureOptions is under a frame contract only",
+			"'an acknowledgement repeats the request's options unchanged while a nak or reject lists only offending options': processConfigureOptions of LCP and IPv6CP is under a frame contract only; for IPCP only the IP-Address option is specified (an unacceptable address puts an entry on the nak/reject list, so the reply is not an Ack), the contents of the lists are not",
+			"SetPeerIP while IPCP is Opened changes the assigned address after the peer's address was acknowledged: 'acknowledges only the assigned address' is decided at the time of the acknowledgement only",
 			"timer-vs-packet races (a time.AfterFunc callback already running when stopTimer is called) and real elapsed time",
 			"byte-level Serialize/Parse round trip of option lists",
 		},
 		Assumptions: []string{
-			"monitor model for LCPStateMachine.mu (state, config, negotiated, counters, identifiers and the ghost flags gA/gB are owned by mu); timerMu owns restartTimer",
-			"ghost flags are assigned only at function exits (ghost_exit clauses), so the proof does not depend on statement order inside bodies",
+			"monitor model for the mu of each automaton (state, config, negotiated, counters, identifiers and the ghost flags gA/gB/gT are owned by mu); timerMu owns restartTimer",
+			"ghost flags are assigned only at function exits (ghost_exit clauses), so the proof does not depend on statement order inside bodies; gT is assigned by startTimer (true, together with restartTimer != nil) and stopTimer (false, restartTimer == nil) only",
+			"timeout() is entered because the pending restart timer fired: that it re-arms the timer when it stays in a timer-driven state is a separate postcondition (exactly one Terminate-/Configure-Request was sent, which starts the timer), because the lock invariant alone would assume gT at its Lock",
 		},
-		Explanation: "Ghost flags gA ('we acknowledged the peer's most recent Configure-Request') and gB ('the peer acknowledged our most recent Configure-Request') are ghost fields of the automaton, owned by its mutex. gB is cleared by sendConfigureRequest and set by receiveConfigureAck only for the matching identifier; gA is set by receiveConfigureRequest exactly when the first packet it sent was a Configure-Ack. The lock invariant state=Opened => gA&&gB, Ack-Rcvd => gB, Ack-Sent => gA is assumed at every Lock and asserted at every Unlock of every method, and IsOpened/GetState ensure it for what they report. Every event that must leave Opened (RCR, RCN/RCJ for the current id, RTR, RTA, Down, Close, code/protocol reject of LCP) has the postcondition state != Opened; replies carry the request's identifier (first-sent ghost id == pkt.Identifier); timeout decrements restartCount in the active states and leaves them when it is exhausted (so a silent peer sees at most MaxConfigure/MaxTerminate retransmissions).",
+		Explanation: "For each of the three automata (LCP, IPCP, IPv6CP): ghost flags gA ('we acknowledged the peer's most recent Configure-Request') and gB ('the peer acknowledged our most recent Configure-Request') are ghost fields of the automaton, owned by its mutex. gB is cleared by sendConfigureRequest and set by receiveConfigureAck only for the matching identifier; gA is set by receiveConfigureRequest exactly when the first packet it sent was a Configure-Ack. The lock invariant state=Opened => gA&&gB, Ack-Rcvd => gB, Ack-Sent => gA is assumed at every Lock and asserted at every Unlock of every method, and IsOpened/GetState ensure it for what they report. Every event that must leave Opened (RCR, RCA/RCN/RCJ for the current id, RTR, RTA, Down, Close, code/protocol reject of LCP) has the postcondition state != Opened; Ack/Nak/Reject with a stale identifier change nothing; replies carry the request's identifier (first-sent ghost id == pkt.Identifier). Retransmission bounds: sendConfigureRequest/sendTerminateRequest decrement restartCount, timeout decrements it in the active states and leaves them when it is exhausted. Silent peer: the ghost flag gT ('a restart timer is pending', set by startTimer and cleared by stopTimer, tied to restartTimer != nil) satisfies the lock invariants termtimer (state in {Closing, Stopping} => gT) and cfgtimer (state in {Req-Sent, Ack-Rcvd, Ack-Sent} => gT), so no handler may stop the timer and stay in a state that only a timeout can leave; timeout itself either retransmits (which restarts the timer and decrements the counter) or leaves these states. The terminate phase is entered only by closeInternal with restartCount = MaxTerminate - 1 after the first Terminate-Request (MaxRetransmit for IPCP/IPv6CP) or by RTR in Opened with restartCount = 0, and no handler increases restartCount while the automaton stays in the phase, so at most MaxTerminate Terminate-Requests go to a silent peer. IPCP: receiveConfigureRequest sends a Configure-Ack only if processConfigureOptions returned empty nak and reject lists, which it does only if every IP-Address option of the request carries config.PeerIP, the address assigned to the session (and one is assigned).",
 	})
 }
